@@ -139,6 +139,7 @@ struct Obj {
   int users = 0;                       // container: live clippers that added it since their last Clear
   // ---- history bookkeeping for the distinct-nontrivial measure
   int n_exec = 0, n_clear = 0, n_add = 0, n_opt = 0, n_reuse = 0;
+  int sticky_err = 0;                  // error flags raised by rejected input so far (ErrorCode() is documented as cumulative)
 };
 
 } // namespace
@@ -342,7 +343,8 @@ static void h_c_add(Ctx& c, const Op& op, int idx, OpResult& r) {
     o->batches.push_back(std::move(b)); ++o->n_add;
   } else if (o->type == T_CD && op.hasD[0]) {
     Batch b; b.kind = kind; b.pd = toD(op.D[0]);
-    { Scope sc(idx); if (kind == 0) o->cd->AddSubject(b.pd); else if (kind == 1) o->cd->AddOpenSubject(b.pd); else o->cd->AddClip(b.pd); }
+    try { Scope sc(idx); if (kind == 0) o->cd->AddSubject(b.pd); else if (kind == 1) o->cd->AddOpenSubject(b.pd); else o->cd->AddClip(b.pd); }
+    catch (const Clipper2Exception&) { o->sticky_err |= o->cd->ErrorCode(); throw; }   // rejected input: nothing was added, the error flag stays
     o->batches.push_back(std::move(b)); ++o->n_add;
   } else SKIP(r);
 }
@@ -421,7 +423,7 @@ static void h_c_exec(Ctx& c, const Op& op, int idx, OpResult& r) {
   int outmode = (int)(((ai(op, 2) % 4) + 4) % 4); bool junk = ai(op, 3) != 0;
   bool used = o->n_exec > 0 || o->n_clear > 0 || o->n_reuse > 0;
   if (o->type == T_C64) {
-    ClipOut64 a;
+    std::unique_ptr<ClipOut64> a_holder(new ClipOut64()); ClipOut64& a = *a_holder;
     if (junk) { fill_junk(a.closed); fill_junk(a.open); a.tree.AddChild(Path64{Point64(9, 9), Point64(8, 8), Point64(7, 1)}); }
     {
       Scope sc(idx);
@@ -448,7 +450,7 @@ static void h_c_exec(Ctx& c, const Op& op, int idx, OpResult& r) {
     }
     ++o->n_exec;
   } else if (o->type == T_CD) {
-    ClipOutD a;
+    std::unique_ptr<ClipOutD> a_holder(new ClipOutD()); ClipOutD& a = *a_holder;
     if (junk) { fill_junk(a.closed); fill_junk(a.open); a.tree.AddChild(PathD{PointD(9, 9), PointD(8, 8), PointD(7, 1)}); }
     {
       Scope sc(idx);
@@ -464,6 +466,7 @@ static void h_c_exec(Ctx& c, const Op& op, int idx, OpResult& r) {
     r.digest = hash_out<double>(a.ret, a.err, a.closed, a.open, outmode, a.tree);
     if (c.model) {
       ClipOutD b; ref_execD(*o, ct, fr, outmode, b);
+      b.err |= o->sticky_err;
       if (outmode == 0 || outmode == 2) b.open.clear();
       uint64_t hb = hash_out<double>(b.ret, b.err, b.closed, b.open, outmode, b.tree);
       r.compared = true; r.nontrivial = used; r.shape = hist_shape("ClipperD", *o, outmode < 2 ? "paths" : "tree");
@@ -638,7 +641,7 @@ static void alone_check(const Obj& m, double delta, const Paths64& combined, OpR
 }
 
 static void f_exec_common(Ctx& c, const Op& op, int idx, OpResult& r, Obj* o, double delta, int outmode, bool junk, bool alone, bool via_cb_overload) {
-  OffOut a;
+  std::unique_ptr<OffOut> a_holder(new OffOut()); OffOut& a = *a_holder;   // on the heap: a pointer the library keeps to it dangles visibly
   if (junk) { fill_junk(a.sol); a.tree.AddChild(Path64{Point64(9, 9), Point64(8, 8), Point64(7, 1)}); }
   bool used = o->n_exec > 0 || o->n_clear > 0;
   {
